@@ -333,3 +333,23 @@ Proof.
   - cbn. intuition.
   - intro w. vm_compute. discriminate.
 Qed.
+
+(* ---- an item that lives in one list offered to another list over the same item fields ---- *)
+Definition ex_fs_two : list (str * node leaf) := [(sa "a", NCfgList false [] ex_need None); (sa "b", NCfgList false [] ex_need None)].
+Definition ex_two_step (w : world) (c : cfg) (ps : list pstep) (x : xop leaf) :=
+  at_path_x leaf lvalidate lto_python ldefault l_callable lflag (vrun []) ps w [] c false [] ex_fs_two x.
+(* a[0] is broken in place by an accepted operation (its required field is reset), then offered to b: refused with the
+   position it would have had in b, and BOTH lists are as they were; the intact a[1] is taken -- the code leaves it in a as
+   well, the state shows the same object (identity 2) at a[1] and b[1] *)
+Example moved_item_rejected_both_lists_unchanged :
+  let mk_need z := PDict 0 [(PStr (sa "need"), PInt z)] in
+  let '(w0', c0) := build_cfg leaf lvalidate lto_python ldefault l_callable lflag (vrun []) w0 ex_fs_two in
+  let '(w1, c1, _) := ex_two_step w0' c0 [] (XOp (CSet (sa "a") (PList 0 [mk_need 1%Z; mk_need 2%Z]))) in
+  let '(w2, c2, _) := ex_two_step w1 c1 [] (XOp (CSet (sa "b") (PList 0 [mk_need 3%Z]))) in
+  let '(w3, c3, o3) := ex_two_step w2 c2 [PItem (sa "a") 0] (XOp (CReset (sa "need"))) in
+  let '(w4, c4, o4) := ex_two_step w3 c3 [] (XFrom RAppend (sa "b") [PItem (sa "a") 0]) in
+  let '(w5, c5, o5) := ex_two_step w4 c4 [] (XFrom (RInsert 0) (sa "b") [PItem (sa "a") 0]) in
+  let '(_, c6, o6) := ex_two_step w5 c5 [] (XFrom RAppend (sa "b") [PItem (sa "a") 1]) in
+  o3 = OOk /\ o4 = OErr (EValidation (sa "b[1].need")) /\ c4 = c3 /\ o5 = o4 /\ c5 = c3 /\ o6 = OOk
+  /\ map snd (ids_cfg [] c6) = [0; 1; 2; 3; 2].
+Proof. vm_compute. repeat split; reflexivity. Qed.
